@@ -100,7 +100,8 @@ pub mod gossip {
     pub type AnnouncementId = u64;
     pub enum RelayStatus { Relay }
     pub struct Error;
-    pub struct Store;
+    /// (a field, so that two states of the store are distinguishable values: its ghost log differs)
+    pub struct Store { pub opaque: u64 }
     pub struct Anns { pub dummy: u8 }
     impl Anns { #[verifier::external_body] pub fn next(&mut self) -> Option<Result<Announcement, Error>> { unimplemented!() } }
     impl Store {
@@ -112,7 +113,13 @@ pub mod gossip {
                 acceptable(*ann, now_ghost()),            //[C10]
                 *nid == ann.node,                         //[C10]
                 ann.message.ts() != 0,                    //[C13]
+            ensures
+                // ghost log: `Ok(Some(id))` means this delivery became the stored content of row `id`, to be relayed later
+                r matches Ok(Some(id)) ==> final(self).took() == old(self).took().push(id),
+                !(r matches Ok(Some(_))) ==> final(self).took() == old(self).took(),
         { unimplemented!() }
+        /// ghost: the ids under which this store has accepted deliveries, in order
+        pub uninterp spec fn took(&self) -> Seq<AnnouncementId>;
         /// SINK (C13): the real function asserts `from <= to`.
         #[verifier::external_body]
         pub fn filtered(&self, f: &Filter, from: Timestamp, to: Timestamp) -> (r: Result<Anns, Error>)
@@ -139,7 +146,15 @@ pub struct Stores<D>(pub D);
 impl<D> Stores<D> {
     #[verifier::external_body] pub fn addresses(&self) -> &address::Store { unimplemented!() }
     #[verifier::external_body] pub fn gossip(&self) -> &gossip::Store { unimplemented!() }
-    #[verifier::external_body] pub fn gossip_mut(&mut self) -> &mut gossip::Store { unimplemented!() }
+    /// ghost: the acceptance log of the gossip store inside
+    pub uninterp spec fn g_took(self) -> Seq<gossip::AnnouncementId>;
+    #[verifier::external_body] pub fn gossip_mut(&mut self) -> (r: &mut gossip::Store)
+        ensures r.took() == old(self).g_took(), final(self).g_took() == final(r).took()
+    { unimplemented!() }
+}
+/// C10 ("never echoed back to a peer that delivered it"): `n` is on record as having delivered announcement `id`
+pub open spec fn tracked(m: HashMap<gossip::AnnouncementId, Vec<NodeId>>, id: gossip::AnnouncementId, n: NodeId) -> bool {
+    m@.contains_key(id) && m@[id]@.contains(n)
 }
 pub struct Doc { pub rid: RepoId }
 impl Doc { #[verifier::external_body] pub fn is_visible_to(&self, did: &Did) -> (r: bool) ensures r == visible(self.rid, *did) { unimplemented!() } }
@@ -271,11 +286,19 @@ impl Message { #[verifier::external_body] pub fn log(&self, level: log::Level, r
 //@      /// NOT verified in this unit; arbitrary effect on the service, returns Ok(relay) or Ok(None) (ASSUMED, by inspection of its `return` statements)
 //@      #[verifier::external_body]
 //@      fn vx_process_stored(&mut self, announcer: &NodeId, relayer_addr: &Address, message: &AnnouncementMessage, relay: Option<gossip::AnnouncementId>) -> (r: Result<Option<gossip::AnnouncementId>, session::Error>)
-//@          ensures r is Ok && (r->Ok_0 == relay || r->Ok_0 is None)
+//@          ensures r is Ok && (r->Ok_0 == relay || r->Ok_0 is None),
+//@              // ASSUMED (by inspection): the per-type processing neither stores gossip nor forgets who delivered what
+//@              final(self).db.g_took() == old(self).db.g_took(),
+//@              forall|i: gossip::AnnouncementId, n: NodeId| tracked(old(self).relayed_by, i, n) ==> #[trigger] tracked(final(self).relayed_by, i, n),
 //@      { unimplemented!() }
 //@      #[verifier::external_body] fn relay(&mut self, id: gossip::AnnouncementId, ann: Announcement) { unimplemented!() }
 //@      #[verifier::external_body] pub fn handle_info(&mut self, remote: NodeId, info: &Info) -> Result<(), session::Error> { unimplemented!() }
-//@      #[verifier::external_body] fn vx_track_relayer(&mut self, id: gossip::AnnouncementId, relayer: &NodeId) { unimplemented!() }
+//@      /// stand-in for `self.relayed_by.entry(id).or_default().push(*relayer)` (HashMap entry API): ASSUMED to do what it says
+//@      #[verifier::external_body] fn vx_track_relayer(&mut self, id: gossip::AnnouncementId, relayer: &NodeId)
+//@          ensures tracked(final(self).relayed_by, id, *relayer),
+//@              forall|i: gossip::AnnouncementId, n: NodeId| tracked(old(self).relayed_by, i, n) ==> #[trigger] tracked(final(self).relayed_by, i, n),
+//@              final(self).db == old(self).db, final(self).clock == old(self).clock,
+//@      { unimplemented!() }
 //@    fn handle_announcement
 //@      desugar_try
 //@      ret res
@@ -289,6 +312,9 @@ impl Message { #[verifier::external_body] pub fn log(&self, level: log::Level, r
 //@      ensures
 //@        # C10: nothing is reported as stored/relayable unless it was acceptable
 //@        res is Ok && res->Ok_0 is Some ==> acceptable(*announcement, now_ghost())
+//@        # C10: whoever delivers an announcement that the gossip store takes (to be relayed on the next tick) is on record
+//@        # as a deliverer of it -- whether or not this call decides to relay -- so that it is never echoed back to that peer
+//@        forall|i: int| old(self).db.g_took().len() <= i < final(self).db.g_took().len() ==> tracked(final(self).relayed_by, #[trigger] final(self).db.g_took()[i], *relayer) //[C10]
 //@      head
 //@        proof { ids_lawful(); }
 //@    fn handle_message
@@ -296,6 +322,8 @@ impl Message { #[verifier::external_body] pub fn log(&self, level: log::Level, r
 //@      desugar_try
 //@      desugar_for
 //@      body_sub Ping::MAX_PONG_ZEROES => MAX_PONG_ZEROES
+//@      # (the relayer-tracking statement, should it be moved here from handle_announcement)
+//@      body_sub? self\.relayed_by\.entry\(id\)\.or_default\(\)\.push\(\*relayer\); => self.vx_track_relayer(id, relayer);
 //@      loop 1
 //@        invariant
 //@          peer.id == *remote
